@@ -1,27 +1,77 @@
 #!/usr/bin/env python3
 """False-alarm regression: the behaviour-preserving refactorings produced by independent
-sub-agents (refactors/R*.diff, 60-200 changed lines each, suite verified) must leave every
-check silent when applied to a scratch copy of the current tree.  A patch that no longer
-applies (the tree moved) is skipped and counted."""
-import glob, os, subprocess, sys
+sub-agents (refactors/R*.diff, 60-500 changed lines each, suite verified) must not make any check
+report something new.  A patch that applies to the current tree is tested on it (must be completely
+silent).  A patch that no longer applies (the tree moved under it) is tested differentially on the
+commit it was written for (refactors/BASE): reports(base + patch) must be a subset of reports(base)."""
+import glob, json, os, shutil, subprocess, sys, tempfile
 from concurrent.futures import ThreadPoolExecutor
 V = os.path.dirname(os.path.dirname(os.path.abspath(__file__)))
+sys.path.insert(0, os.path.join(V, "tools")); sys.path.insert(0, os.path.join(V, "rules"))
+import try_patch, facts as FACTS
+BASE = open(os.path.join(V, "refactors", "BASE")).read().strip()
+
+
+def export_base(d):
+    p = subprocess.run("git -C /repo archive %s src Cargo.toml Cargo.lock README.md | tar -x -C %s" % (BASE, d), shell=True)
+    return p.returncode == 0
+
+
+def reports(d):
+    res = try_patch.analyse(d)
+    out = set()
+    for pid, (viol, errs) in res.items():
+        out |= {"%s VIOLATION [%s] %s" % (pid, x.rule, x.keystr()) for x in viol}
+        out |= {"%s FAIL-CLOSED %s" % (pid, e) for e in errs}
+    return out
+
+
+_base_reports = None
+
+
+def base_reports():
+    global _base_reports
+    if _base_reports is None:
+        d = tempfile.mkdtemp(prefix="rxbase-", dir="/var/tmp")
+        try:
+            export_base(d)
+            _base_reports = reports(d)
+        finally:
+            shutil.rmtree(d, ignore_errors=True)
+    return _base_reports
 
 
 def run(p):
-    o = subprocess.run(["python3", os.path.join(V, "tools/try_patch.py"), p], stdout=subprocess.PIPE, stderr=subprocess.STDOUT, text=True).stdout
-    if "PATCH DOES NOT APPLY" in o or "DOES NOT BUILD" in o:
-        return p, "SKIPPED", ""
-    bad = [l for l in o.splitlines() if " VIOLATION " in l or " FAIL-CLOSED " in l]
-    return p, ("ALARM" if bad else "SILENT"), "; ".join(bad[:3])
+    d = tempfile.mkdtemp(prefix="rxref-", dir="/var/tmp")
+    try:
+        try_patch.copy_repo(d)
+        subprocess.check_call(["git", "init", "-q"], cwd=d)
+        mode = "HEAD"
+        if subprocess.run(["git", "apply", "--whitespace=nowarn", p], cwd=d, stdout=subprocess.DEVNULL, stderr=subprocess.DEVNULL).returncode != 0:
+            shutil.rmtree(d); os.makedirs(d)
+            mode = "BASE"
+            export_base(d)
+            subprocess.check_call(["git", "init", "-q"], cwd=d)
+            if subprocess.run(["git", "apply", "--whitespace=nowarn", p], cwd=d, stdout=subprocess.DEVNULL, stderr=subprocess.DEVNULL).returncode != 0:
+                return p, "SKIPPED", "does not apply to HEAD nor to its base"
+        try:
+            rp = reports(d)
+        except FACTS.FactsError:
+            return p, "SKIPPED", "does not build"
+        new = rp - (base_reports() if mode == "BASE" else set())
+        return p, ("ALARM" if new else "SILENT"), ("[%s] " % mode) + "; ".join(sorted(new)[:3])
+    finally:
+        shutil.rmtree(d, ignore_errors=True)
 
 
 ps = sorted(glob.glob(os.path.join(V, "refactors", "*.diff")))
+if any(True for _ in ps):
+    base_reports()
 with ThreadPoolExecutor(max_workers=6) as ex:
     res = list(ex.map(run, ps))
 n = {"SILENT": 0, "ALARM": 0, "SKIPPED": 0}
 for p, st, why in res:
     n[st] += 1
-    print("%-8s %-20s %s" % (st, os.path.basename(p), why[:300]))
+    print("%-8s %-12s %s" % (st, os.path.basename(p), why[:300]))
 print("refactorings: %d silent, %d false alarms, %d skipped" % (n["SILENT"], n["ALARM"], n["SKIPPED"]))
 sys.exit(1 if n["ALARM"] else 0)
